@@ -1,14 +1,19 @@
 # C04 - no input can crash, corrupt memory, hang or raise a non-qpdf error  (PARTIAL by construction).
 # Proof: Props/Properties_C04.v: every fixed-size buffer index computed by the filter code stays in range in the
 # models, bit readers never read past their buffer, the LZW table is bounded (the logic half).
+#        and (Sys/C04GuardProofs.v) the guard logic of the traversals, limits and conversions: termination within an explicit
+#        bound, node visits bounded by the number of nodes, revisits reported, depth limits, no wrapped conversion,
+#        at most two xref reconstructions.  Tie: harness/c04guards.py (random hostile graphs, real qpdf vs extracted model).
 # Observed (testing, labelled so): the real qpdf CLI and the in-process drivers built with ASan+UBSan
 # (-fno-sanitize-recover) are fed a malformed stream (mutations of generated documents, repository corpus and
 # fuzz seeds with a PDF token dictionary and structure-aware edits); every run must end in a documented way.
 import os, re, resource, subprocess, time
-import common, filecheck, pdfgen
+import common, filecheck, pdfgen, c04guards
 from common import hexs
 
 ASSUMPTIONS = [
+    "guard theorems (Sys/C04GuardProofs.v) speak about the Gallina models of Sys/Guards.v, over abstract object graphs without a node of id 0; the models are tied to /repo by the random-graph correspondence of this check (CLI outcome category, page / entry / helper / warning counts, driver results), not by a proof about the C++",
+    "guard part: CPU budget 1 s + 0.05 ms per input byte and RSS budget 150 MB + 0.4 kB per byte per qpdf run (plain build, ulimit -v 4 GB, 40 s hard stop); an overrun is re-run alone before it is reported",
     "memory safety, undefined behaviour, leaks, wall-clock time and memory use of the C++ are NOT expressible in the Gallina models: they are observed only, on the sampled malformed stream, by the sanitizers and budgets (partial, DESIGN §8)",
     "budgets are loose multiples (20 s + 2 ms per input byte, 4 GB address space outside ASan) so that correct code never trips them; an overrun is re-run alone before it is reported",
     "DCT (libjpeg), zlib internals and the C API beyond what the drivers call are outside",
@@ -188,7 +193,10 @@ def run(chk):
         budget = 20 + 0.002 * n
         t = time.time()
         rc, so, se = common.run_qpdf(args, timeout=budget * 3, env=env, exe=qpdf_asan)
-        return classify(rc, so[-4000:], se[-20000:], time.time() - t, budget * 3), rc, se[-1500:]
+        cls = classify(rc, so[-4000:], se[-20000:], time.time() - t, budget * 3)
+        if cls == "ok" and se.count(b"Attempting to reconstruct cross-reference table") > 2:
+            cls = "more-than-two-xref-reconstructions"
+        return cls, rc, se[-1500:]
     res = common.par_map(runjob, jobs, workers=14)
     kinds = {}
     nontriv = set()
@@ -228,8 +236,19 @@ def run(chk):
                        "case": l[:600], "driver_output": o[:600]}, signature="c04:filter")
     chk.count("filters-asan", len(lines), set(l for l, o in zip(lines, outs) if o.endswith(" 1")), samples=[{"case": lines[0][:120]}])
 
+    # ---- guard logic: random hostile graphs, real qpdf / driver vs the extracted model of Sys/Guards.v
+    diffs, fails = c04guards.run_part(chk, quick)
+    c04guards.report(chk, diffs, fails)
+
 
 def replay(chk, rep):
     import json
     print(json.dumps(rep, indent=1)[:3000])
+    # a recorded guard-part case: run the same command again on the recorded input, with the same caps
+    if rep.get("part") == "guards" and rep.get("input") and rep.get("argv") and os.path.exists(rep["input"]):
+        rc, so, se, cpu, rss, wall = c04guards.run_qpdf_capped(common.QPDF, rep["argv"][1:], rep["input"])
+        size = os.path.getsize(rep["input"])
+        print("replayed: exit=%s cpu=%.2fs rss=%dkB wall=%.1fs input=%d bytes (budget %.2f s, %d kB)" % (
+            rc, cpu, rss, wall, size, c04guards.CPU_BUDGET[0] + c04guards.CPU_BUDGET[1] * size, c04guards.RSS_BUDGET[0] + c04guards.RSS_BUDGET[1] * size))
+        print(se[-1500:].decode("latin-1"))
     return 0
